@@ -272,10 +272,11 @@ class Project(object):
         self.root = root
         self.function_name = function_name
         self.method_of = method_of
+        self.files = dict(FILES)  # kind -> file name; two kinds may share one file
         os.makedirs(root, exist_ok=True)
 
     def path(self, kind):
-        return os.path.join(self.root, FILES[kind])
+        return os.path.join(self.root, self.files[kind])
 
     def name_of(self, kind):
         if kind == "function" and self.method_of:
